@@ -29,7 +29,7 @@ type Case struct {
 
 func setup() {
 	c := ev.C()
-	c.Rule = "histories of ADD/REPLACE/DELETE over ipv4/ipv6/mpls/nhg/nh in 3 network instances with a small colliding key universe (rapid, model-aimed) plus all histories of length<=3 over a 24-step alphabet, run against rib.RIB (L1), server.Modify/Get over in-process streams (L2) and - one L2 history in four - the same server behind a real grpc.Server over bufconn (L3: real codec, HTTP/2 streams); after every step: relation model, pure fold of acknowledged ops, held-set and counter invariants. Non-trivial = history in which an acknowledged ADD/REPLACE changed an installed key's payload, or an acknowledged DELETE removed an installed key, or a held op was acknowledged later, or a flush left entries in other NIs; distinct by FNV-64 of the canonical case JSON."
+	c.Rule = "histories of ADD/REPLACE/DELETE over ipv4/ipv6/mpls/nhg/nh in 3 network instances with a small colliding key universe (rapid, model-aimed) plus dependency graphs in disturbed arrival orders (held chains, dependencies deleted while waited for, doomed held REPLACEs) plus all histories of length<=3 over a 24-step alphabet, run against rib.RIB (L1), server.Modify/Get over in-process streams (L2) and - one L2 history in four - the same server behind a real grpc.Server over bufconn (L3: real codec, HTTP/2 streams); after every step: relation model, pure fold of acknowledged ops, held-set and counter invariants. Non-trivial = history in which an acknowledged ADD/REPLACE changed an installed key's payload, or an acknowledged DELETE removed an installed key, or a held op was acknowledged later, or a flush left entries in other NIs; distinct by FNV-64 of the canonical case JSON."
 	c.Assumptions = []string{
 		"payload generators only emit schema-valid values (labels 16..1048575, canonical prefixes, non-empty metadata)",
 		"installed state at L1 is read through RIBContents + rib.Concrete*Proto, the converters Get uses",
@@ -204,6 +204,25 @@ func TestCampaign(t *testing.T) {
 			} else if wild != "" {
 				v.Class("renamed:" + wild)
 			}
+			col.Check(rt, ev.JSON(c), v)
+		})
+	})
+	t.Run("dependency-graphs", func(t *testing.T) {
+		// dependency graphs in disturbed arrival orders (the generator of C02): chains of
+		// held operations released together, dependencies deleted while waited for, doomed held
+		// REPLACEs failing inside a cascade - every acknowledgement must still be the fold
+		rapid.Check(t, func(rt *rapid.T) {
+			c := Case{Level: "L1", H: hgen.DrawGraph(rt)}
+			switch rapid.IntRange(0, 5).Draw(rt, "level") {
+			case 0:
+				c.Level = "L2"
+				c.Batch = []int{rapid.IntRange(1, 5).Draw(rt, "batch")}
+			case 1:
+				c.Level = "L3"
+				c.Batch = []int{rapid.IntRange(1, 5).Draw(rt, "batch")}
+			}
+			v := runCase(c)
+			v.Class("dependency-graph")
 			col.Check(rt, ev.JSON(c), v)
 		})
 	})
